@@ -116,6 +116,11 @@ fn table() -> Vec<(&'static str, Check)> {
         ("C03-array-literal", || c03("array[int, 2] a = {1, 2};")),
         ("C03-block-expr", || c03("int x = {1};")),
         ("C03-box-expr", || c03("box { };")),
+        ("C03-gphase-no-arg", || { let (a, wa) = c03("gphase();"); let (b, wb) = c03("inv @ gphase();"); (a && b, format!("{wa}; {wb}")) }),
+        ("C03-empty-stmt-body", || {
+            let (a, wa) = c03("if (true) ;"); let (b, wb) = c03("while (true) ;"); let (c_, wc) = c03("for int i in [0:1] ;");
+            (a && b && c_, format!("{wa}; {wb}; {wc}"))
+        }),
         ("C06-power-op", || {
             let res = oq3_semantics::syntax_to_semantics::parse_source_string("float a; float b; a ** b;", None);
             let dbg = format!("{:?}", res.program());
@@ -168,6 +173,12 @@ fn fixed_table() -> Vec<(&'static str, Check)> {
             let r = parse_outcome("delay q;");
             (matches!(r, Run::Panicked(_)), format!("SourceFile::parse(\"delay q;\") -> {:?}", r))
         }),
+        ("C03-barrier-no-operands", || c03("barrier;")),
+        ("C03-stmt-body-none", || {
+            let (a, wa) = c03("while (true) OPENQASM 3;");
+            let (b, wb) = c03("for int i in [0:3] @a\n");
+            (a || b, format!("{wa}; {wb}"))
+        }),
         ("C01-param-list-hang", || {
             let r = parse_outcome("def f(3) {}");
             let r2 = parse_outcome("extern f(x");
@@ -189,6 +200,13 @@ fn main() {
             }
         }
         exit(0);
+    }
+    if arg == "--src" {
+        // probe: run one source text through the whole pipeline and print the outcome
+        let src: &'static str = Box::leak(std::env::args().nth(2).unwrap_or_default().into_boxed_str());
+        let (nsyn, r) = sema_outcome(src);
+        println!("syntax-diagnostics={} analysis={:?}", nsyn, r);
+        return;
     }
     if arg == "--list" {
         for (id, _) in table() {
